@@ -17,7 +17,8 @@ MIN_COUNTERS = {"quadruples": 100, "expected_equal": 40, "expected_unequal": 40}
 ASSUMPTIONS = ["perturbations stay four orders of magnitude away from the built-in 1e-9 tolerance",
                "'same function' rational cases are refinements in homogeneous form or constant weights"]
 
-RELATIONS = ["same", "insert", "elevate", "both", "ratconst", "perturb-big", "perturb-small", "weights", "interval", "unrelated", "refined-perturbed"]
+RELATIONS = ["same", "insert", "elevate", "both", "ratconst", "perturb-big", "perturb-small", "weights", "interval", "unrelated", "refined-perturbed",
+             "cross-refined", "mult-swapped"]
 
 
 def refine(rc, rng, how):
@@ -69,6 +70,22 @@ def gen_case(rng, idx, tier):
             B["P"] = [list(p) for p in B["P"]]
             B["P"][i][rng.randrange(len(B["P"][i]))] += eps
         equal = rel == "perturb-small"
+    elif rel in ("cross-refined", "mult-swapped"):
+        # both operands are refinements of one curve, raised at two different existing knots: same degree, same number
+        # of control points, same distinct knots, different multiplicities
+        ks = ref.distinct(ra.U)[1:-1]
+        cands = [k for k in ks if ref.mult(ra.U, k) < ra.p + 1]
+        if len(cands) < 2:
+            return None
+        k1, k2 = rng.sample(cands, 2)
+        X, Y = ref.boehm_insert(ra, k1), ref.boehm_insert(ra, k2)
+        A = rc_to_case(X, scal)
+        if rel == "cross-refined":
+            B = rc_to_case(Y, scal)
+        else:
+            # X's control points and weights on Y's knot vector: another function (decided at run time)
+            B = dict(A, U=Y.U)
+            equal = None
     elif rel == "weights":
         n = len(A["P"])
         if n < 2:
@@ -105,7 +122,7 @@ def run_case(case, ctx):
             truth = False
         else:
             same = ref.same_function(ra, rb)
-            if same and rel == "weights":
+            if same and rel in ("weights", "mult-swapped"):
                 # same function through different (non proportional) weights, e.g. coincident control points:
                 # equality of rational curves is only promised up to refinement, not up to re-weighting
                 ctx.count("skipped_reweighted_same_function")
